@@ -32,7 +32,7 @@ ASSUMPTIONS = ["chapter alignment (at every depth) is demanded for logbooks all 
                "every level (DESIGN section 6); integer indices out of range must raise and change nothing; pop / del on a "
                "logbook whose chapters are misaligned by construction (records with differing chapter names) only compare "
                "model and implementation, and the oracle stops for the rest of that history",
-               "header_once holds only while the logbook is never emptied of all delivered rows (known finding header-after-empty, F5)"]
+               "the header is counted over the texts returned by `logbook.stream` (str(logbook) prints its header every time, by design)"]
 EXPLANATION = ("Theorems C18.* are proved over all histories of the model Core/Logbook.lean (no length bound); the correspondence "
                "compares, after every operation of a history, the complete observable state (rows, buffindex, every chapter "
                "recursively, header settings) and the operation's result; the oracle re-derives the expected logbook from the "
@@ -95,7 +95,7 @@ def dump(lb):
 
 def dump_state(lb):
     hdr = "none" if lb.header is None else (",".join(str(NUM[n]) for n in lb.header) or "-")
-    return "%s;%s;%d" % (dump(lb), hdr, 1 if lb.log_header else 0)
+    return "%s;%s;%d;%d" % (dump(lb), hdr, 1 if lb.log_header else 0, 1 if getattr(lb, "header_streamed", False) else 0)
 
 
 def show_col(col):
@@ -362,6 +362,7 @@ def run_history(ops):
                     header_ops.append(j)
                     if len(header_ops) >= 2 and f5[0] is None:
                         f5[0] = "header delivered twice: the streams at ops #%d and #%d both carried a header" % (header_ops[-2], j)
+                        fail(f5[0])
         elif k == "pop":
             i = op[1]
             toks.append("O:%d" % (0 if i is None else i))
@@ -806,7 +807,7 @@ def rand_history(rng, length, perturb=0.0, nch=None, sub=None, oob=0.08):
             ops.append(["pickle", rng.choice([0, 1, 2, 3, 4, 5])])
         elif r < 0.9:
             ops.append(["str"])
-        elif r < 0.96:
+        elif r < 0.95:
             cols = ["rid"] + rng.sample(sc.fields + sc.chs + ["q"], rng.randint(0, min(3, len(sc.fields + sc.chs) + 1)))
             rng.shuffle(cols)
             ops.append(["hdr", None if rng.random() < 0.3 else cols])
@@ -1023,27 +1024,6 @@ def shrink(d):
                 yield e
 
 
-_F5 = re.compile(r"^header delivered twice: the streams at ops #(\d+) and #(\d+) both carried a header")
-
-
 def classify(desc, msg, known):
-    """`header-after-empty` (F5) exactly when the failure is a second header AND, in the history, the second
-    header follows a point where every delivered record had been deleted (buffindex back at 0)."""
-    m = _F5.match(msg or "")
-    if not m or desc.get("k") != "hist":
-        return None
-    first, second = int(m.group(1)), int(m.group(2))
-    ops = desc["ops"]
-    if not (0 <= first < second < len(ops)) or ops[first][0] != "stream" or ops[second][0] != "stream":
-        return None
-    pl = plan(ops)
-    executed, before = pl[second]
-    if not executed or before["lost"] or not pl[first][0]:
-        return None
-    surviving = [e["rid"] for e in before["entries"]]
-    delivered = before["delivered"]
-    if not delivered or not surviving:
-        return None
-    if any(r in delivered for r in surviving):
-        return None             # a delivered record still exists: buffindex > 0, a header here is a new defect
-    return "header-after-empty"
+    """no known finding is left for this property: every oracle failure is a violation"""
+    return None
